@@ -43,6 +43,7 @@ type surface struct {
 	name  string
 	size  int    // the one accepted length (-1: every length is acceptable input)
 	valid []byte // a valid encoding of that length
+	valid2 []byte // optional: a second, different valid encoding (for chunk substitution)
 	// call runs the entry point on data with a fresh (used=false) or previously set (used=true) receiver.
 	call func(used bool, data []byte) outcome
 	// documented panic condition (allow-list keyed by function + condition, not message text)
@@ -86,6 +87,46 @@ func content(s *surface, n, class int) []byte {
 	return b
 }
 
+// inject returns the valid encoding with one failure cause injected into 32-byte chunk j
+// (kind 0: chunk := 0xff.., 1: chunk := 0, 2: chunk := the same chunk of a second valid encoding,
+// 3: top bit of the chunk's last byte flipped, 4: low bit of its first byte flipped, 5: chunk := p (non-canonical zero),
+// 6: chunk := the group order L).
+func inject(s *surface, j, kind int) []byte {
+	b := append([]byte{}, s.valid...)
+	lo, hi := 32*j, 32*j+32
+	if hi > len(b) {
+		hi = len(b)
+	}
+	ch := b[lo:hi]
+	switch kind {
+	case 0:
+		for i := range ch {
+			ch[i] = 0xff
+		}
+	case 1:
+		for i := range ch {
+			ch[i] = 0
+		}
+	case 2:
+		if len(s.valid2) == len(s.valid) {
+			copy(ch, s.valid2[lo:hi])
+		}
+	case 3:
+		ch[len(ch)-1] ^= 0x80
+	case 4:
+		ch[0] ^= 1
+	case 5:
+		for i := range ch {
+			ch[i] = 0xff
+		}
+		ch[0] = 0xed
+		ch[len(ch)-1] = 0x7f
+	case 6:
+		copy(ch, []byte{0xed, 0xd3, 0xf5, 0x5c, 0x1a, 0x63, 0x12, 0x58, 0xd6, 0x9c, 0xf7, 0xa2, 0xde, 0xf9, 0xde, 0x14, 0, 0, 0, 0, 0, 0, 0, 0, 0, 0, 0, 0, 0, 0, 0, 0x10})
+	}
+	return b
+}
+
 func run(c *mc.Ctx) {
 	surfaces := buildSurfaces(c)
 	type cs struct {
@@ -94,6 +135,7 @@ func run(c *mc.Ctx) {
 		class int
 		used  bool
 		nilIn bool
+		inj   int // -1 none, else 8*chunk+kind
 	}
 	var all []cs
 	for i := range surfaces {
@@ -105,21 +147,30 @@ func run(c *mc.Ctx) {
 		for n := 0; n <= maxN; n++ {
 			for class := 0; class < 5; class++ {
 				for _, used := range []bool{false, true} {
-					all = append(all, cs{s, n, class, used, false})
+					all = append(all, cs{s, n, class, used, false, -1})
 				}
 			}
 		}
-		all = append(all, cs{s, 0, 0, false, true}, cs{s, 0, 0, true, true})
+		all = append(all, cs{s, 0, 0, false, true, -1}, cs{s, 0, 0, true, true, -1})
+		if s.size > 0 {
+			for j := 0; j*32 < s.size; j++ {
+				for kind := 0; kind < 7; kind++ {
+					all = append(all, cs{s, s.size, 9, false, false, 8*j + kind}, cs{s, s.size, 9, true, false, 8*j + kind})
+				}
+			}
+		}
 	}
 	c.Par("lengths-x-contents", len(all), func(w *mc.W, i int) {
 		k := all[i]
 		s := k.s
 		var data []byte
-		if !k.nilIn {
+		if k.inj >= 0 {
+			data = inject(s, k.inj/8, k.inj%8)
+		} else if !k.nilIn {
 			data = content(s, k.n, k.class)
 		}
 		o := s.call(k.used, data)
-		cas := map[string]interface{}{"surface": s.name, "len": len(data), "class": k.class, "used_receiver": k.used, "nil": k.nilIn, "data": mc.Hex(data)}
+		cas := map[string]interface{}{"surface": s.name, "len": len(data), "class": k.class, "used_receiver": k.used, "nil": k.nilIn, "data": mc.Hex(data), "injected": k.inj}
 		wrongLen := s.size >= 0 && len(data) != s.size
 		w.Eval(fmt.Sprintf("%s/wronglen=%v", s.name, wrongLen), wrongLen || k.class >= 2)
 		if o.panicked != nil {
@@ -157,6 +208,7 @@ func run(c *mc.Ctx) {
 		}
 	}
 	c.Rep.Extra["surfaces"] = len(surfaces)
+	cacheHistories(c)
 	transcripts(c)
 }
 
@@ -190,6 +242,12 @@ func buildSurfaces(c *mc.Ctx) []surface {
 	spkB := mustHex(kp.PublicKey().MarshalBinary())
 	sskB := mustHex(ssk.MarshalBinary())
 	kpB := mustHex(kp.MarshalBinary())
+	var msk2 sr25519.MiniSecretKey
+	copy(msk2[:], mc.Bytes(c.Seed, "c19seed2", 0, 32))
+	kp2 := msk2.ExpandUniform().KeyPair()
+	kp2B := mustHex(kp2.MarshalBinary())
+	ssig2, _ := kp2.Sign(bytes.NewReader(make([]byte, 64)), sctx.NewTranscriptBytes(msg))
+	ssig2B := mustHex(ssig2.MarshalBinary())
 	pi := ecvrf.Prove(sk, msg)
 	uniform := mc.Bytes(c.Seed, "uniform", 0, 64)
 
@@ -441,7 +499,7 @@ func buildSurfaces(c *mc.Ctx) []surface {
 		return
 	}})
 	// ---- sr25519 ----
-	add(surface{name: "sr25519.Signature.UnmarshalBinary", size: 64, valid: ssigB, call: func(used bool, d []byte) (o outcome) {
+	add(surface{name: "sr25519.Signature.UnmarshalBinary", size: 64, valid: ssigB, valid2: ssig2B, call: func(used bool, d []byte) (o outcome) {
 		var s, n sr25519.Signature
 		_ = n.UnmarshalBinary(nil) // documented neutral: identity point, nil scalar
 		if used {
@@ -517,7 +575,7 @@ func buildSurfaces(c *mc.Ctx) []surface {
 		guard(&o, func() { r, err := sr25519.NewSecretKeyFromEd25519Bytes(d); o.accepted = err == nil && r != nil })
 		return
 	}})
-	add(surface{name: "sr25519.KeyPair.UnmarshalBinary", size: 96, valid: kpB, call: func(used bool, d []byte) (o outcome) {
+	add(surface{name: "sr25519.KeyPair.UnmarshalBinary", size: 96, valid: kpB, valid2: kp2B, call: func(used bool, d []byte) (o outcome) {
 		var k, n sr25519.KeyPair
 		if used {
 			_ = k.UnmarshalBinary(kpB)
@@ -527,7 +585,7 @@ func buildSurfaces(c *mc.Ctx) []surface {
 		o.after = fmt.Sprintf("%v/%v", k.SecretKey() == nil, k.PublicKey() == nil)
 		return
 	}})
-	add(surface{name: "sr25519.NewKeyPairFromBytes", size: 96, valid: kpB, call: func(used bool, d []byte) (o outcome) {
+	add(surface{name: "sr25519.NewKeyPairFromBytes", size: 96, valid: kpB, valid2: kp2B, call: func(used bool, d []byte) (o outcome) {
 		guard(&o, func() { r, err := sr25519.NewKeyPairFromBytes(d); o.accepted = err == nil && r != nil })
 		return
 	}})
@@ -638,5 +696,78 @@ func transcripts(c *mc.Ctx) {
 			w.Fail("merlin.Finalize/short-entropy", fmt.Sprintf("Finalize succeeded with only %d bytes of entropy", n%32), nil)
 		}
 		w.Eval("transcript-ops", n > 166)
+	})
+}
+
+// cacheHistories: every sequence of <= 5 calls of the caching verifier over {three good keys, a 32-byte string that is
+// not a point, a 31-byte key, an empty key} x {Verify, AddPublicKey, Add-to-batch} for capacities 1 and 2: no call may
+// panic (malformed keys presented EARLIER must not poison later calls), decisions = plain verification.
+func cacheHistories(c *mc.Ctx) {
+	msg := []byte("c19 cache history")
+	type key struct {
+		pk, sig []byte
+		want    bool
+	}
+	var keys []key
+	for i := 0; i < 3; i++ {
+		sk := ed25519.NewKeyFromSeed(mc.Bytes(c.Seed, "c19cache", i, 32))
+		keys = append(keys, key{sk.Public().(ed25519.PublicKey), ed25519.Sign(sk, msg), true})
+	}
+	bad := make([]byte, 32)
+	for y := byte(2); ; y++ {
+		bad[0] = y
+		if _, err := ed25519.NewExpandedPublicKey(bad); err != nil {
+			break
+		}
+	}
+	keys = append(keys, key{bad, keys[0].sig, false}, key{keys[0].pk[:31], keys[0].sig, false}, key{nil, keys[0].sig, false})
+	nops := len(keys) * 3
+	depth := c.Pick(3, 4)
+	total := 1
+	for i := 0; i < depth; i++ {
+		total *= nops
+	}
+	c.Par("cache-histories", total*2, func(w *mc.W, i int) {
+		cp := 1 + i%2
+		x := i / 2
+		v := cache.NewVerifier(cache.NewLRUCache(cp))
+		hist := ""
+		sawBad := false
+		for d := 0; d < depth; d++ {
+			o := x % nops
+			x /= nops
+			k, kind := keys[o/3], o%3
+			hist += fmt.Sprintf("%s(key%d);", [...]string{"Verify", "AddPublicKey", "Add"}[kind], o/3)
+			var got bool
+			var pv interface{}
+			func() {
+				defer func() { pv = recover() }()
+				switch kind {
+				case 0:
+					got = v.Verify(k.pk, msg, k.sig)
+				case 1:
+					v.AddPublicKey(k.pk)
+					got = k.want
+				default:
+					bv := ed25519.NewBatchVerifier()
+					v.Add(bv, k.pk, msg, k.sig)
+					_, each := bv.Verify(bytes.NewReader(make([]byte, 64)))
+					got = each[0]
+				}
+			}()
+			cas := map[string]interface{}{"capacity": cp, "history": hist}
+			if pv != nil {
+				w.Fail("cache.Verifier/panic-after-malformed-key", fmt.Sprintf("cap=%d history %s: panic: %v", cp, hist, pv), cas)
+				return
+			}
+			if got != k.want {
+				w.Fail("cache.Verifier/decision-after-malformed-key", fmt.Sprintf("cap=%d history %s: got %v want %v", cp, hist, got, k.want), cas)
+				return
+			}
+			if !k.want {
+				sawBad = true
+			}
+		}
+		w.Eval("cache-histories", sawBad)
 	})
 }
